@@ -61,6 +61,11 @@ pub enum DiffMode {
     Walk,
     /// epoch difficulty moves by exactly tau (up/down) whenever possible
     Extreme,
+    /// NOT a legal history: in about a third of the epochs the epoch difficulty jumps by a factor 3..8 up or down (otherwise Walk).
+    /// Such a chain is mined, self-consistent and provable, but its sampled end points fail the client's tau check, which makes the
+    /// client ask a second time with the tau check switched off (the "RequireRecheck" path). Never used where honest peers must
+    /// not be rejected (C05 quantifies over legal histories only).
+    Jump,
 }
 
 #[derive(Clone, Debug)]
@@ -360,7 +365,9 @@ impl Chain {
                     (1, 2)
                 }
             }
+            DiffMode::Jump => *rng.pick(&[(3, 1), (5, 1), (8, 1), (1, 3), (1, 5), (1, 8), (1, 1), (3, 2), (2, 3), (2, 1), (1, 2), (4, 3)]),
         };
+        let jump = p.diff_mode == DiffMode::Jump && (ratio.0 > 2 * ratio.1 || ratio.1 > 2 * ratio.0);
         let legal = |bd: &U256, len: u64| -> bool {
             if bd.is_zero() {
                 return false;
@@ -385,7 +392,7 @@ impl Chain {
             let cands = vec![bd.clone(), if bd > U256::one() { &bd - 1u64 } else { bd.clone() }, &bd + 1u64];
             for c in cands {
                 let (compact, actual) = roundtrip_difficulty(&c);
-                if legal(&actual, length) && max_bd.as_ref().map(|m| &actual <= m).unwrap_or(true) {
+                if (legal(&actual, length) || (jump && !actual.is_zero())) && max_bd.as_ref().map(|m| &actual <= m).unwrap_or(true) {
                     chosen = Some((compact, actual, length));
                     break;
                 }
@@ -396,7 +403,7 @@ impl Chain {
             (prev.compact, prev.block_difficulty.clone(), if p.diff_mode == DiffMode::Fixed { length } else { prev.length })
         });
         // Fixed mode with a different length changes the epoch difficulty: keep it legal
-        let (compact, bd, length) = if legal(&bd, length) { (compact, bd, length) } else { (prev.compact, prev.block_difficulty.clone(), prev.length) };
+        let (compact, bd, length) = if legal(&bd, length) || jump { (compact, bd, length) } else { (prev.compact, prev.block_difficulty.clone(), prev.length) };
         self.epochs.push(EpochInfo { number: idx, start, length, compact, block_difficulty: bd });
     }
 
